@@ -10,7 +10,8 @@
    truncated to i32), W64 the repaired code (fixes/C08-validate-i64.diff).
    Definitions only. *)
 From Coq Require Import FMapPositive.
-Require Import V.Base.MachineInt V.Generated.GenConsts.
+Require Import V.Base.MachineInt.
+Require Import V.Generated.GenConsts.
 Open Scope Z_scope.
 
 (* ---------------------------------------------------------------- byte memory *)
